@@ -194,7 +194,19 @@ class CanonicalEvolutionDesigner(vza.PartiallySerializableDesigner,
     self._population = self._survival.select(candidates)
 
   def load(self, metadata: vz.Metadata):
+    # The phase (sampling vs. evolving) depends on this counter, so it is part
+    # of the state. Dumps written before it was stored do not carry it.
+    num_trials_seen = metadata.get('num_trials_seen', default=None)
+    try:
+      if num_trials_seen is not None:
+        num_trials_seen = int(num_trials_seen)
+    except ValueError as e:
+      raise serializable.HarmlessDecodeError() from e
     self._population = type(self._population).recover(metadata)
+    if num_trials_seen is not None:
+      self._num_trials_seen = num_trials_seen
 
   def dump(self) -> vz.Metadata:
-    return self._population.dump()
+    metadata = self._population.dump()
+    metadata['num_trials_seen'] = str(self._num_trials_seen)
+    return metadata
